@@ -14,7 +14,7 @@ where K: Kernel<Vector, Matrix> + for<'a> Kernel<&'a Vector, Matrix> + Kernel<Ma
     // matrices of points in a non-trivial shape when the count allows it
     let shape = |n: usize| if n % 2 == 0 && n > 0 { (2, n / 2) } else { (1, n) };
     let (sx, sy) = (shape(x.len()), shape(y.len()));
-    let (mx, my) = (Matrix { data: vx.clone(), nrows: sx.0, ncols: sx.1 }, Matrix { data: vy.clone(), nrows: sy.0, ncols: sy.1 });
+    let (mx, my) = (mk(vx.clone(), sx.0, sx.1), mk(vy.clone(), sy.0, sy.1));
     vec![
         ("Vector", guard(|| <K as Kernel<Vector, Matrix>>::forward(k, vx.clone(), vy.clone()))),
         ("&Vector", guard(|| <K as Kernel<&Vector, Matrix>>::forward(k, &vx, &vy))),
@@ -89,6 +89,20 @@ pub fn replay(cases: &str, verdicts: &str) {
             for (form, g) in gram_forms(&rbf, &xs, &ys) {
                 let ok = g.as_ref().map(|m| m.nrows == xs.len() && m.ncols == ys.len() && m.data.iter().zip(&e_rbf).all(|(a, b)| (a - b).abs() <= 1e-9 * var) && m.data.iter().all(|a| *a <= var)).unwrap_or(false);
                 v.check(ok, &format!("RBF matrix-form {}", form), &format!("large-magnitude-nearby {}", lc), &c, json!(g.as_ref().map(|m| fjs(&m.data))));
+            }
+            // large point sets (53 x 47 = 2491 entries, not a multiple of any power-of-two block; and 64 x 64): the matrix form is the
+            // scalar form at every entry, in all four containers - spread over a few length scales so that the values are not flat
+            for (nx, ny) in [(53usize, 47usize), (64, 64), (1, 2500)] {
+                let px: Vec<f64> = (0..nx).map(|i| -1.0 + 0.11 * l * i as f64).collect();
+                let py: Vec<f64> = (0..ny).map(|j| 0.3 * l - 0.07 * l * (j % 97) as f64).collect();
+                let e_rq: Vec<f64> = px.iter().flat_map(|x| py.iter().map(move |y| (*x, *y))).map(|(x, y)| <RQKernel as Kernel<f64, f64>>::forward(&rq, x, y)).collect();
+                let e_rbf: Vec<f64> = px.iter().flat_map(|x| py.iter().map(move |y| (*x, *y))).map(|(x, y)| <RBFKernel as Kernel<f64, f64>>::forward(&rbf, x, y)).collect();
+                for (kname, forms, e) in [("RQ", gram_forms(&rq, &px, &py), &e_rq), ("RBF", gram_forms(&rbf, &px, &py), &e_rbf)] {
+                    for (form, g) in forms {
+                        let bad = g.as_ref().map(|m| if m.nrows != nx || m.ncols != ny || m.data.len() != nx * ny { 0 } else { m.data.iter().zip(e.iter()).position(|(a, b)| !((a - b).abs() <= 1e-9 * var)).map(|p| p as i64).unwrap_or(-1) }).unwrap_or(0);
+                        v.check(bad == -1, &format!("{} matrix-form {}", kname, form), &format!("large-point-sets {}x{}", nx, ny), &json!({"case": c, "nx": nx, "ny": ny}), json!({"first_bad_entry": bad}));
+                    }
+                }
             }
             // parameter validation
             for (bv, ba, bl) in [(0.0, 1.0, 1.0), (-1.0, 1.0, 1.0), (1.0, 0.0, 1.0), (1.0, 1.0, 0.0), (1.0, 1.0, -2.0)] {
